@@ -39,7 +39,8 @@ RULE = ("systematic: 13 layerings (0-4 layers, empty layers, unknown names incl.
 
 
 def main(run):
-    return engine_check(run, PID, ENTRIES_P, make_cases, RULE, [])
+    return engine_check(run, PID, ENTRIES_P, make_cases, RULE, [],
+                        after=lambda r: pool_wrappers_part(r, PID, ['ExecuteDAGModel']))
 
 
 def replay(run, data):
